@@ -195,6 +195,15 @@ def run_part(pid, part, tier, seed, rundir, viols, agg, problems):
             cur = read_cur(out)
             with open(log, "r", errors="replace") as f:
                 text = f.read()
+            if "race detected during execution of test" in text and not _crash_re.search(text):
+                # a race report fails the bubble's test and aborts TestCheck; the report itself is
+                # collected from the race log. Resume after the case that was running.
+                attempts[s] += 1
+                if cur is not None and attempts[s] <= 40:
+                    start(s, cur["case"], attempts[s])
+                else:
+                    problems.append("part %s shard %d: too many race aborts" % (name, s))
+                continue
             msg, frame = crash_signature(text)
             case = cur["case"] if cur else -1
             m = _crash_re.search(text)
